@@ -22,7 +22,13 @@ import (
 	"verif/harness/props"
 )
 
-const verifDir = "/verif"
+// verifDir is where known_findings.json, evidence/, replays/ and .work/ live.
+var verifDir = func() string {
+	if d := os.Getenv("VERIF_DIR"); d != "" {
+		return d
+	}
+	return "/verif"
+}()
 
 func main() {
 	if len(os.Args) < 2 {
